@@ -100,6 +100,11 @@ def rhythm_expand(defs, text):
     return "".join(out)
 
 
+# the letters the program defines and command.md does not list, with the texts theorem C09_rhythm_letters_undocumented pins
+# (GM percussion keys: m = open hi-hat 46, M = mid tom 47, L = low tom 43)
+PINNED_UNDOCUMENTED = {"m": "n46,", "M": "n47,", "L": "n43,"}
+
+
 def doc_tables(ctx):
     """command.md: built-in macro texts and rhythm letters; mml_def.rs only for what command.md does not give"""
     cmd = open(os.path.join(vlib.REPO, "command.md"), encoding="utf-8").read()
@@ -110,12 +115,23 @@ def doc_tables(ctx):
     code_rh = dict(re.findall(r"rhthm_macro\['(.)' as usize - 0x40\] = String::from\(\"([^\"]*)\"\);", code))
     for k, v in sorted(code_rh.items()):
         if k not in rh:
+            if k in PINNED_UNDOCUMENTED and v != PINNED_UNDOCUMENTED[k]:
+                ctx.notes.append("rhythm letter %s = \"%s\" in mml_def.rs is not documented and differs from the pinned text \"%s\" "
+                                 "(oracle uses the pinned text)" % (k, v, PINNED_UNDOCUMENTED[k]))
+                rh[k] = PINNED_UNDOCUMENTED[k]
+                continue
             ctx.notes.append("rhythm letter %s = \"%s\" in mml_def.rs is not documented in command.md (oracle uses the code's text)" % (k, v))
             rh[k] = v
         elif rh[k] != v:
-            ctx.notes.append("DOC/CODE: rhythm letter %s is \"%s\" in command.md and \"%s\" in mml_def.rs (oracle uses the code's text; "
-                             "Coq: C09_rhythm_letter_H_differs)" % (k, rh[k], v))
-            rh[k] = v
+            if k == "H":
+                # the one judged difference (DESIGN 13.3: code n50, command.md n44; Coq: C09_rhythm_letter_H_differs): the code's text
+                ctx.notes.append("DOC/CODE: rhythm letter %s is \"%s\" in command.md and \"%s\" in mml_def.rs (oracle uses the code's text; "
+                                 "Coq: C09_rhythm_letter_H_differs)" % (k, rh[k], v))
+                rh[k] = v
+            else:
+                # every other letter: the DOCUMENTED definition is the reference (theorem C09_rhythm_letters says code = command.md), so
+                # a Rhythm text using the letter shows the difference as a failing input
+                ctx.notes.append("DOC/CODE: rhythm letter %s is \"%s\" in command.md and \"%s\" in mml_def.rs (oracle uses command.md)" % (k, rh[k], v))
     for name in ("OctaveUnison", "Unison5th", "Unison3th", "Unison"):
         if name not in macros:
             ctx.notes.append("command.md gives no definition text for %s" % name)
@@ -310,6 +326,11 @@ def gen_flow_cases(rng, n):
 
 def gen_rhythm_cases(rng, n, table):
     out = []
+    # every letter of the table directly followed by every length form (the definition text meets what follows it)
+    for c in sorted(table):
+        if c.isalpha() or c == "_":
+            text = " ".join(c + ln for ln in ["", "8", "16", "4.", "2"]) + " " + c + c
+            out.append(("CH(10) l4 Rhythm{%s} c" % text, "CH(10) l4 %s c" % rhythm_expand(dict(table), text), "rhythm_letters", True, True))
     for _ in range(n):
         defs = dict(table)
         deftext = ""
